@@ -136,12 +136,36 @@ def build(repo):
     levels = {}
     for lv, fn in [("Lua51", "features_lua51"), ("Lua52", "features_lua52"), ("Lua53", "features_lua53"), ("Lua54", "features_lua54")]:
         levels[lv] = fset(fn)
-    return {"left": left, "right": right, "unary": unary, "bmap": bmap, "umap": umap, "levels": levels}
+    # lexical constants: the characters skipped after '\\z' (lexer) and the largest accepted \\u{XXX} value (checker)
+    lexer = strip_comments(open(os.path.join(repo, "crates/emmylua_parser/src/lexer/lua_lexer.rs"), encoding="utf8").read())
+    m = re.search(r"'z'\s*=>\s*\{\s*self\s*\.\s*reader\s*\.\s*bump\s*\(\s*\)\s*;\s*self\s*\.\s*reader\s*\.\s*eat_while\s*\((.*?)\)\s*;\s*\}", lexer, re.S)
+    if not m:
+        raise AnchorError("lex_string: the eat_while after '\\z' was not found")
+    CH = {"' '": 32, "'\\t'": 9, "'\\r'": 13, "'\\n'": 10, "'\\x0B'": 11, "'\\x0b'": 11, "'\\x0C'": 12, "'\\x0c'": 12, "'\\u{b}'": 11, "'\\u{c}'": 12}
+    lits = re.findall(r"'(?:\\.[^']*|[^'\\])'", m.group(1))
+    zsp = []
+    for lit in lits:
+        if lit not in CH:
+            raise AnchorError("lex_string: unexpected character %s in the '\\z' skip set" % lit)
+        if CH[lit] not in zsp:
+            zsp.append(CH[lit])
+    if not zsp:
+        raise AnchorError("lex_string: empty '\\z' skip set")
+    chk_path = os.path.join(repo, "crates/emmylua_code_analysis/src/diagnostic/checker/syntax_error.rs")
+    try:
+        chk = strip_comments(open(chk_path, encoding="utf8").read())
+    except OSError as e:
+        raise AnchorError("source file missing: %s" % e)
+    m = re.search(r"u32\s*::\s*from_str_radix\s*\(\s*&\s*unicode_hex\s*,\s*16\s*\)\s*&&\s*code_point\s*>\s*0x([0-9A-Fa-f_]+)", chk)
+    if not m:
+        raise AnchorError("check_normal_string_error: `code_point > 0x...` test of \\u{XXX} not found")
+    umax = int(m.group(1).replace("_", ""), 16)
+    return {"left": left, "right": right, "unary": unary, "bmap": bmap, "umap": umap, "levels": levels, "zsp": zsp, "umax": umax}
 
 
 def render(g):
     L = ["(** GENERATED by lib/c03_translate.py from crates/emmylua_parser/src/kind/{lua_operator_kind,mod,lua_features}.rs — do not edit. *)",
-         "From Coq Require Import List.", "From EV Require Import C03.Syntax.", ""]
+         "From Coq Require Import List NArith.", "Import ListNotations.", "From EV Require Import C03.Syntax.", "Local Open Scope N_scope.", ""]
     L.append("(** LuaOpKind::to_binary_operator, restricted to the tokens and operators of standard Lua *)")
     L.append("Definition gen_binop_of (t : tok) : option binop :=\n  match t with")
     for tk in sorted(g["bmap"]):
@@ -160,15 +184,20 @@ def render(g):
         L.append("(** PRIORITY[op as usize].%s *)" % nm[4:])
         L.append("Definition %s (b : binop) : nat :=\n  match b with" % nm)
         for b in BINOPS:
-            L.append("  | %s => %d" % (b, d[b]))
+            L.append("  | %s => %d%%nat" % (b, d[b]))
         L.append("  end.\n")
-    L.append("Definition gen_unary_priority : nat := %d.\n" % g["unary"])
+    L.append("Definition gen_unary_priority : nat := %d%%nat.\n" % g["unary"])
     L.append("(** LuaFeaturesSet::features_lua51 .. features_lua54 *)")
     L.append("Definition gen_features (l : level) : features :=\n  match l with")
     for lv in ("Lua51", "Lua52", "Lua53", "Lua54"):
         fs = g["levels"][lv]
         L.append("  | %s => {| %s |}" % (lv, "; ".join("%s := %s" % (FEATURES[k], "true" if k in fs else "false") for k in FEATURES)))
     L.append("  end.")
+    L.append("")
+    L.append("(** lexer/lua_lexer.rs fn lex_string: code points skipped after a backslash-z *)")
+    L.append("Definition gen_zsp_chars : list BinNums.N := [%s]." % "; ".join(str(c) for c in g["zsp"]))
+    L.append("(** syntax_error.rs fn check_normal_string_error: the largest accepted value of a \\u{XXX} escape *)")
+    L.append("Definition gen_umax : BinNums.N := %d." % g["umax"])
     return "\n".join(L) + "\n"
 
 
